@@ -12,6 +12,7 @@ mod dump;
 mod oracle;
 #[cfg(feature = "serde")]
 mod serde_cases;
+#[cfg(feature = "sendsync")]
 mod send_sync;
 
 use canon::*;
@@ -638,6 +639,7 @@ fn main() {
         },
         "dump" => dump::dump(),
         "oracle" => oracle::serve(),
+        #[cfg(feature = "sendsync")]
         "threads" => send_sync::stress(&args[2]),
         _ => {
             eprintln!("usage: evx-harness run <file>|dump|oracle|threads <file>");
